@@ -503,7 +503,9 @@ class InputSchemaBuilder(
                     field_type,
                     field_default,
                     aliaser=self.aliaser,
+                    check_type=True,
                     conversion=field.deserialization,
+                    fall_back_on_any=False,
                     # graphql-core expects enum members, not their values
                     pass_through=PassThroughOptions(enums=True),
                 )
